@@ -50,8 +50,8 @@ ASSUMPTIONS = [
 
 
 def gen_case(r, index, tier):
-    W = r.choice([4, 6, 8, 10, 16])
-    H = max(2, int(round(W * r.choice([0.5, 1, 1, 2]))))
+    W = r.choice([4, 6, 8, 10, 16, 24])
+    H = max(2, int(round(W * r.choice([0.1, 0.25, 0.5, 1, 1, 2, 4, 8]))))   # from square to very elongated dies
     die = {"family": r.choice(["dyadic", "decimal"]), "scale_exp": r.choice([0, 0, 1]), "nx": W, "ny": H, "regions": []}
     nl = designs.gen_netlist(r, die, nmods=r.randint(3, 9), kinds=["soft", "soft", "soft", "fixed", "terminal"],
                              allow_terminals=True, need_centers=True, connected=r.chance(0.7), allow_regions=False)
@@ -70,7 +70,7 @@ def gen_case(r, index, tier):
     terms = [m for m in mods if m["kind"] == "terminal" and "center" in m]
     if terms and cents and r.chance(0.4):
         cents[0]["center"] = terms[0]["center"]             # a soft module placed on a (possibly fixed) terminal
-    return {"engine": "c13", "die": die, "net": nl, "max_iter": r.weighted([(1, 1), (2, 1), (5, 2), (20, 3), (60, 2)]),
+    return {"engine": "c13", "die": die, "net": nl, "max_iter": r.weighted([(1, 2), (2, 1), (3, 1), (5, 2), (20, 3), (60, 2)]),
             "kappa": r.choice([0.4, 0.7, 1.0, 1.5]), "hist_seed": r.below(1 << 30), "with_die_net": True,
             "squares": r.chance(0.3), "alias": r.chance(0.5)}
 
@@ -150,7 +150,7 @@ def _build(case):
     tree = designs.netlist_tree(_norm(case["net"]), die)
     net = N.Netlist(tree)
     d = D.Die(designs.die_tree(die), net)
-    if case.get("squares"):
+    if case.get("squares") and not any(m.is_terminal for m in net.modules):
         # what Allocation.initial_allocation does before the relocation stage is run on the same objects
         net.create_squares()
     if case.get("alias"):
